@@ -8,7 +8,7 @@ from vlib.util import VERIF, REPO
 ASSUMPTIONS = ['"observable trace" = what process bodies and probe callbacks see (env.now, values, exceptions, order)',
                'hash-seed independence is sampled (fresh interpreters with several PYTHONHASHSEED values), not a theorem',
                'run(until=event) for an event that fails re-raises its exception after all of its waiters have run (repaired in /repo)']
-SPEC = [(3, 'plan:time'), (3, 'plan:outcome'), (2, 'plan:cond'), (2, 'plan:intr'), (2, 'plan:res'), (2, 'plan:store'), (1, 'untilfail'), (1, 'untilreact'), (2, 'crashplan')]
+SPEC = [(3, 'plan:time'), (3, 'plan:outcome'), (2, 'plan:cond'), (2, 'plan:intr'), (2, 'plan:res'), (2, 'plan:store'), (1, 'untilfail'), (1, 'untilreact'), (2, 'crashplan'), (2, 'untiljoin')]
 
 CHILD = r'''
 import sys, json, hashlib
